@@ -104,6 +104,8 @@ inductive Item | msg (m : Nat) | drain | call (k : Nat)   -- `call k`: an RPC re
 /-- Where the actor's control flow is suspended. -/
 inductive Phase
   | fresh                 -- slot exists, nothing spawned
+  | cell                  -- `spawn_instant`: the cell was handed out (`Unstarted`, ports open, guard armed),
+                          -- the start task was spawned and has never been polled
   | pre                   -- spawn future suspended inside `pre_start`
   | ready                 -- loop task spawned, never polled
   | postStart             -- suspended inside `post_start`
@@ -128,6 +130,8 @@ inductive Arg | none | msg (m : Nat) | sup (e : SupEv) | call (k : Nat)
   deriving DecidableEq, Repr, Inhabited
 
 inductive SpawnRet | ok | killed | nolink | startup (isPanic : Bool) (n : Nat) | registered
+  | already      -- `SpawnErr::ActorAlreadyStarted` (the status was not `Unstarted` when `start` ran)
+  | joinPanic    -- the join handle of an instant start task reported a panic (never produced by the model)
   deriving DecidableEq, Repr, Inhabited
 
 inductive JoinRes | ok | cancelled | panic   -- `panic` is never produced by the model
@@ -165,6 +169,8 @@ inductive Ev
   | supArrive (e : SupEv)          -- `e` was handed to this actor's supervision port
   | supIs (p : Option Nat)         -- observed supervisor after the op (only when it changed)
   | isLocal                        -- the actor is a thread-local actor (first event of such an actor)
+  | instant                        -- `spawn_instant*` returned `Ok((actor_ref, start_handle))`
+  | treeKill                       -- a supervisor's `terminate()` killed me and my signal port accepted it
   | aborted                        -- `JoinHandle::abort` hit the live task
   | dropped                        -- the spawn future was dropped while alive
   | join (r : JoinRes)
@@ -198,6 +204,8 @@ structure Actor where
   wantSup : Option Nat := none
   /-- a `ThreadLocalActor` (`thread_local/inner.rs`): linked before `pre_start`, never reports its state -/
   isLocal : Bool := false
+  /-- spawned with `spawn_instant*`: `start()` runs inside a spawned task -/
+  instant : Bool := false
   /-- signal port: sender still in the cell / `Signal::Kill` in flight -/
   sigTx : Bool := true
   sigVal : Bool := false
@@ -292,7 +300,9 @@ def apiKill (a : Actor) : Actor × Bool :=
 /-- `drain`: close admission, `Draining` unless already `>= Stopping`, `send_drain_marker`. -/
 def apiDrain (a : Actor) : Actor × Bool :=
   let a1 : Actor := { a with admClosed := true,
-                             status := if a.status.rank < Status.stopping.rank then .draining else a.status }
+                             -- (repo fix e926850: an `Unstarted` cell of `spawn_instant` stays `Unstarted`)
+                             status := if a.status = .unstarted then a.status
+                                       else if a.status.rank < Status.stopping.rank then .draining else a.status }
   if a1.markerSent then (a1, true)
   else if !a1.portsOpen then ({ a1 with markerSent := true }, false)
   else ({ a1 with markerSent := true, msgQ := a1.msgQ ++ [.drain],
@@ -396,6 +406,14 @@ def afterExit (a : Actor) (r : Res) : M :=
   | .postStop _, r => finish a (failedEv a r)
   | _, r => finish (a.setStatus .stopping) (failedEv a r)
 
+/-- `SupervisionTree::link(me, p)` once its preconditions hold: insert me into `p`'s child set, make
+`p` my supervisor and remove me from the previous supervisor's child set. -/
+def doLink (a : Actor) (p : Nat) : M :=
+  ({ a with sup := some p },
+   .eff (.link p) :: (match a.sup with
+     | some q => if q = p then [] else [.eff (.unlink q)]
+     | none => []))
+
 /-- What follows the return of `pre_start` (`supOk`: the requested supervisor accepts a link:
 its status is below `Draining` and its child set is not closed). -/
 def afterPre (a : Actor) (supOk : Bool) (r : Res) : M :=
@@ -406,8 +424,8 @@ def afterPre (a : Actor) (supOk : Bool) (r : Res) : M :=
     match (if a.isLocal then none else a.wantSup) with   -- a thread-local actor was linked by `opSpawn`
     | some p =>
       if Status.draining.rank ≤ a.status.rank || !supOk then failSpawn a .nolink
-      else ({ a with sup := some p, notifyOnCancel := true, phase := .ready, woken := true },
-            [.eff (.link p), .ev (.spawnRet .ok)])
+      else andThen (doLink a p) fun a =>
+        ({ a with notifyOnCancel := true, phase := .ready, woken := true }, [.ev (.spawnRet .ok)])
     | none => ({ a with notifyOnCancel := true, phase := .ready, woken := true }, [.ev (.spawnRet .ok)])
 
 def runFx (a : Actor) : Fx → M
@@ -446,8 +464,14 @@ inductive AOp
   /-- nameFree: the registry has no such name; isLocal: `ThreadLocalActor::spawn*`; supOk: the
   requested supervisor accepts a link right now (only consulted for thread-local actors) -/
   | spawn (sup : Option Nat) (name : Option String) (nameFree : Bool) (isLocal : Bool) (supOk : Bool)
+  /-- `spawn_instant` / `spawn_linked_instant` (Send and thread-local): `new()` only -/
+  | spawnInstant (sup : Option Nat) (name : Option String) (nameFree : Bool) (isLocal : Bool)
   | pollSpawn (supOk : Bool)
   | dropSpawn
+  /-- the public `ActorCell::link(p)` (`supOk`: `p` is below `Draining` and its child set is open) -/
+  | link (p : Nat) (supOk : Bool)
+  /-- the public `ActorCell::unlink(p)` -/
+  | unlink (p : Nat)
   | poll
   | abort
   | resume (s : Seg)
@@ -491,8 +515,48 @@ def opSpawn (a : Actor) (sup : Option Nat) (name : Option String) (nameFree : Bo
           [.ev (.enter .preStart .none)])
   | _ => (a, [.note "respawn"])
 
+/-- `spawn_instant*`: `new()` (cell, ports, armed guard) and nothing else; the `ActorRef` is handed out
+while the status is `Unstarted`, `start()` will run in a spawned task. -/
+def opSpawnInstant (a : Actor) (sup : Option Nat) (name : Option String) (nameFree : Bool)
+    (isLocal : Bool) : M :=
+  match a.phase with
+  | .fresh =>
+    if name.isSome && !nameFree then (a, [.ev (.spawnRet .registered)])
+    else if isLocal then
+      ({ a with phase := .cell, instant := true, armed := true, wantSup := sup, isLocal := true,
+                name := name, nameHeld := name.isSome }, [.ev .isLocal, .ev .instant])
+    else
+      ({ a with phase := .cell, instant := true, armed := true, wantSup := sup,
+                name := name, nameHeld := name.isSome }, [.ev .instant])
+  | _ => (a, [.note "respawn"])
+
+/-- `run_with_signal(pre_start)` polled for the first time by an instant start task: the signal port
+is polled first, so a kill that arrived while the cell was `Unstarted` wins and `pre_start` is never
+entered (its future is dropped unpolled: no `cancelled` either). -/
+def beginPre (a : Actor) : M :=
+  if a.sigVal then
+    andThen (handleSignal { a with sigVal := false }) fun a => failSpawn a .killed
+  else ({ a with phase := .pre }, [.ev (.enter .preStart .none)])
+
+/-- First poll of the start task of an instant spawn: `start()` from its first statement.
+The "cannot start an actor more than once" test (`status != Unstarted` ⇒ `Err(ActorAlreadyStarted)`) is
+not a branch of the model: nothing writes the status of a cell that has not been started (`drain`
+leaves an `Unstarted` cell `Unstarted`, repo fix e926850), and the oracle clause
+`c04.instant-start-refused` rejects an implementation trace that shows `Err(already)`. -/
+def startInstant (a : Actor) (supOk : Bool) : M :=
+  let a : Actor := { a with status := .starting }
+  if a.isLocal then
+    -- thread_local/inner.rs: the link is made synchronously, then the builder is shipped
+    match a.wantSup with
+    | some p =>
+      if !supOk then failSpawn a .nolink
+      else andThen (doLink a p) beginPre
+    | none => beginPre a
+  else beginPre a
+
 def opPollSpawn (a : Actor) (supOk : Bool) : M :=
   match a.phase with
+  | .cell => startInstant a supOk
   | .pre =>
     if a.sigVal then
       andThen (say { a with sigVal := false } (.cancelled .preStart)) fun a =>
@@ -505,8 +569,12 @@ def opPollSpawn (a : Actor) (supOk : Bool) : M :=
 
 def opDropSpawn (a : Actor) : M :=
   match a.phase with
+  | .cell =>
+    -- the start task is aborted before its first poll: its captures (guard, ports) are dropped
+    andThen (a, [.ev .dropped, .note "sjoin Cancelled"]) fun a =>
+    andThen (cleanup a none) fun a => (a.dropPorts, [])
   | .pre =>
-    andThen (a, [.ev .dropped, .ev (.cancelled .preStart)]) fun a =>
+    andThen (a, [.ev .dropped, .ev (.cancelled .preStart)] ++ (if a.instant then [.note "sjoin Cancelled"] else [])) fun a =>
     andThen (cleanup a none) fun a => (a.dropPorts, [])
   | _ => (a, [.note "nospawn"])
 
@@ -567,8 +635,20 @@ I am in its child set only while it is my supervisor, `SupervisionTree::link`), 
 kills me if my status is `< Stopping` (repo fix a9fecd6; it was `<= Upgrading`) and takes *my* children. -/
 def opTreeTaken (a : Actor) : M :=
   let a1 : Actor := { a with sup := none }
-  let a2 : Actor := if a1.status.rank < Status.stopping.rank then (apiKill a1).1 else a1
-  ({ a2 with kids := none }, [.eff (.cascade (a2.kids.getD []))])
+  if a1.status.rank < Status.stopping.rank then
+    ({ (apiKill a1).1 with kids := none },
+     (if (apiKill a1).2 then [.ev .treeKill] else []) ++ [.eff (.cascade ((apiKill a1).1.kids.getD []))])
+  else ({ a1 with kids := none }, [.eff (.cascade (a1.kids.getD []))])
+
+/-- The public `ActorCell::link(p)` = `SupervisionTree::link(me, p)`: refused when either side is
+`>= Draining` or `p`'s child set is closed. -/
+def opLink (a : Actor) (p : Nat) (supOk : Bool) : M :=
+  if Status.draining.rank ≤ a.status.rank || !supOk then (a, [])
+  else doLink a p
+
+/-- The public `ActorCell::unlink(p)`: only if `p` is my current supervisor. -/
+def opUnlink (a : Actor) (p : Nat) : M :=
+  if a.sup = some p then ({ a with sup := none }, [.eff (.unlink p)]) else (a, [])
 
 /-- API calls and environment ops on an existing cell. -/
 def Actor.envOp (a : Actor) : AOp → M
@@ -578,6 +658,8 @@ def Actor.envOp (a : Actor) : AOp → M
   | .drain => ((apiDrain a).1, [.ev (.drainRet (apiDrain a).2)])
   | .supArrive e => opSupArrive a e
   | .treeTaken => opTreeTaken a
+  | .link p supOk => opLink a p supOk
+  | .unlink p => opUnlink a p
   | .kidAdd c => ({ a with kids := a.kids.map (fun l => if l.contains c then l else l ++ [c]) }, [])
   | .kidDel c => ({ a with kids := a.kids.map (fun l => l.filter (· != c)) }, [])
   | .call k => ((apiCall a k).1, [.ev (.callSent k (apiCall a k).2),
@@ -597,6 +679,7 @@ def pollMark (a : Actor) (x : M) : M := if a.phase.isTask then (x.1, x.2 ++ [.ev
 
 def Actor.stepCore (a : Actor) : AOp → M
   | .spawn sup name nameFree isLocal supOk => opSpawn a sup name nameFree isLocal supOk
+  | .spawnInstant sup name nameFree isLocal => opSpawnInstant a sup name nameFree isLocal
   | .pollSpawn supOk => opPollSpawn a supOk
   | .dropSpawn => opDropSpawn a
   | .poll => pollMark a (opPoll a)
@@ -695,6 +778,9 @@ end
 inductive Op
   | case
   | spawn (a : Nat) (sup : Option Nat) (name : Option String) (isLocal : Bool)
+  | spawnInstant (a : Nat) (sup : Option Nat) (name : Option String) (isLocal : Bool)
+  | link (a : Nat) (p : Nat)
+  | unlink (a : Nat) (p : Nat)
   | pollSpawn (a : Nat)
   | dropSpawn (a : Nat)
   | poll (a : Nat)
@@ -727,6 +813,9 @@ def World.supOk (w : World) (a : Nat) : Bool := w.supOkOf (w.get a).wantSup
 def Op.target (w : World) : Op → Option (Nat × AOp)
   | .case => none
   | .spawn a sup name loc => some (a, .spawn sup name (w.nameFree name) loc (w.supOkOf sup))
+  | .spawnInstant a sup name loc => some (a, .spawnInstant sup name (w.nameFree name) loc)
+  | .link a p => some (a, .link p (w.supOkOf (some p)))
+  | .unlink a p => some (a, .unlink p)
   | .pollSpawn a => some (a, .pollSpawn (w.supOk a))
   | .dropSpawn a => some (a, .dropSpawn)
   | .poll a => some (a, .poll)
@@ -874,6 +963,7 @@ def next (s : St) : Ev → Except String St
   | .stopRet _ _ true => .ok { s with stopReq := true }
   | .drainRet true => .ok { s with stopReq := true }
   | .killRet _ true => .ok { s with killed := true }
+  | .treeKill => .ok { s with killed := true }     -- a supervisor's `terminate()` is an accepted kill too
   | _ => .ok s
 
 def ok (tr : List Ev) : Bool := (accepts next {} tr).isOk
@@ -906,6 +996,7 @@ def next (s : St) : Ev → Except String St
       | _ => .ok s
   | .tick _ => if s.killed then .error "c03.progress-after-kill" else .ok s
   | .killRet _ true => .ok { s with killed := true }
+  | .treeKill => .ok { s with killed := true }
   | .stopRet _ _ true => .ok { s with stopAcc := true }
   | .supArrive _ => .ok { s with supPending := s.supPending + 1 }
   | _ => .ok s
@@ -981,10 +1072,17 @@ def next (me : Nat) (s : St) : Ev → Except String St
   | .aborted => .ok { s with aborted := true }
   | .isLocal => .ok { s with isLocal := true }
   | .killRet _ true => .ok { s with killed := true }
+  | .treeKill => .ok { s with killed := true }
   | .stopRet _ r true => .ok { s with stopReason := some r }
   | .drainRet true => .ok { s with drainReq := true }
   | .supIs p => .ok { s with sup := p }
   | .spawnRet .ok => if s.preFailed then .error "c04.spawn-ok-after-failure" else .ok s
+  -- a cell handed out by `spawn_instant` is always started: nothing an `ActorRef` holder can do
+  -- while it is `Unstarted` (send, stop, drain, link, …) makes `start()` refuse to run
+  | .spawnRet .already => .error "c04.instant-start-refused"
+  | .spawnRet .joinPanic => .error "c04.start-join-panic"   -- the start task must complete normally
+  -- a kill that wins against `pre_start` (possibly before it was entered): silent for ever
+  | .spawnRet .killed => .ok { s with preFailed := true }
   | .join .ok =>
     -- the task ended by itself: a supervised actor must have reported its end
     if s.sup.isSome && !s.terminalEmitted then .error "c04.missing-terminal" else .ok s
@@ -1046,6 +1144,7 @@ def next (s : St) : Ev → Except String St
     | .registered => .ok s
     | _ => .ok { s with idle := false, over := s.over || s.entered }
   | .polled => if s.idle && !s.queue.isEmpty then .error "c02.accepted-not-handled" else .ok s
+  | .instant => .ok { s with entered := true }   -- `spawn_instant`: the mailbox exists from now on
   | _ => .ok s
 
 def ok (tr : List Ev) : Bool := (accepts next {} tr).isOk
